@@ -144,8 +144,9 @@ CHECKS = {
     },
     "C12": {
         "lean": ["DrummerVerif.Props.C12"],
-        "streams": [schedstream("repair", 400, 6000, ["maintain"]), schedstream("general", 100, 1500, ["maintain"]), loopstream(10, 300)],
-        "rule": RULE_SCHED + " | " + RULE_LOOP, "assumptions": DB_ASSUME,
+        "streams": [schedstream("repair", 400, 6000, ["maintain"]), schedstream("general", 100, 1500, ["maintain"]), loopstream(10, 300),
+                    dbstream("general", 150, 2000, ["res", "hosts"])],
+        "rule": RULE_SCHED + " | " + RULE_LOOP + " | " + (RULE_DB % "general") + " (here: the per-host record of persisted logs that restore decisions read)", "assumptions": DB_ASSUME,
     },
     "C02": {
         "lean": ["DrummerVerif.Props.C02"],
